@@ -8,13 +8,16 @@ SPEC = ("kbuild",)
 ASSUME = [
     "a test file is a file whose name ends in _test.go; a Go source file is any other file ending in .go (the Go convention the statement refers to)",
     "a function's doc comment is the comment block that touches the declaration (no empty line in between): an annotation above an empty line is an ordinary comment",
-    "redirect annotations attached to *method* declarations are outside the generated domain: the statement names function declarations and does not define a method's destination name (the pinned code would emit importpath.Name); methods carry look-alikes only",
-    "an annotation is '//go:redirect-from' followed by blanks and one symbol; '//go:redirect-fromX', annotations without a symbol, directories named *.go and build-constrained files are not generated",
-    "the statement demands the same order for every build of a tree, not a particular order: the monitor compares builds with each other (in-process repeats and fresh child processes); detection of an order that depends on per-process randomness is probabilistic per tree but the generated families contain hundreds of files with several annotated functions",
-    "trusted Go: the encoder abstract tree -> source text and the line scanner real source -> abstract tree in harness/kbuild (no expected results in them; they are checked to be inverse to each other on generated trees)",
+    "an annotation on a *method* declaration is judged under both readings the statement admits, tree-wide: ignored (a method declaration is not a function declaration in Go's grammar) or one entry whose destination is importpath.(*T).Name / importpath.T.Name; importpath.Name is accepted under neither",
+    "an annotation is '//go:redirect-from' followed by blanks and one symbol without blanks; '//go:redirect-fromX', an annotation without a symbol or with several words are not generated (the statement does not say what their source symbol would be)",
+    "every generated file is syntactically valid Go (the tool ends the process on a parse error, which the property does not speak about); not generated: symbolic links, unreadable files, directories the go tool itself skips (testdata, _x, .x), files whose build constraints exclude them from the kernel build are treated like any other file",
+    "'the same tree twice' = the same directory built again in the same process and in fresh child processes; a copy of the tree at another path or on another file system is not built",
+    "the statement demands the same order for every build of a tree, not a particular order: the monitor compares builds with each other; detection of an order that depends on per-process randomness is probabilistic per tree but the generated families contain hundreds of files with several annotated functions",
+    "sizes: lines up to 1 MiB, files up to ~3 MiB, 1100 files in a directory, 1200 declarations in a file, directories 12 deep; larger inputs are not generated",
+    "trusted Go: the encoder abstract tree -> source text and the line scanner real source -> abstract tree in harness/kbuild (no expected results in them; they are checked to be inverse to each other on generated trees in every run)",
 ]
-BUGS_QUICK = ["MapOrder", "DupPerAnnotation"]
-BUGS_FULL = ["MapOrder", "NoTestFilter", "FirstLineOnly", "VarAccepted", "DupPerAnnotation", "PkgFromClause", "FloatingDoc"]
+BUGS_QUICK = ["MapOrder", "MethodAsFunc"]
+BUGS_FULL = ["MapOrder", "MethodAsFunc", "NoTestFilter", "FirstLineOnly", "VarAccepted", "DupPerAnnotation", "PkgFromClause", "FloatingDoc"]
 
 
 def decode_cases(src):
